@@ -19,6 +19,7 @@ import (
 	"go/token"
 	"go/types"
 	"math"
+	"os"
 	"sort"
 	"strings"
 
@@ -118,7 +119,7 @@ type boundsFn struct {
 	canonMemo   map[ssa.Value]ssa.Value
 	byKey       map[string][]ssa.Value
 	stores      map[string][]*ssa.Store
-	noInline    bool                              // summary mode: calls stay atoms (the caller translates them)
+	noInline    bool // summary mode: calls stay atoms (the caller translates them)
 	phiDone     map[*ssa.Phi]bool
 	passed      map[*ssa.BasicBlock][]passedCheck // requirements of the block's own panic-capable instructions
 	valOverride map[ssa.Value]*aff                // value of buf.Len() calls when the remaining count is tracked
@@ -874,9 +875,13 @@ func (bf *boundsFn) computeFacts() {
 	if fn.Blocks == nil {
 		return
 	}
-	order := rpoOrder(fn)
-	exit := map[*ssa.BasicBlock]bufState{}
-	done := map[*ssa.BasicBlock]bool{}
+	bf.runBlocks(rpoOrder(fn), map[*ssa.BasicBlock]bufState{}, map[*ssa.BasicBlock]bool{}, nil, 0)
+}
+
+// runBlocks computes block facts and the buffer typestate for the blocks of
+// order (reverse post-order). fixed gives the in-state of a loop head under a
+// hypothesis that is being verified.
+func (bf *boundsFn) runBlocks(order []*ssa.BasicBlock, exit map[*ssa.BasicBlock]bufState, done map[*ssa.BasicBlock]bool, fixed map[*ssa.BasicBlock]bufState, depth int) {
 	for _, b := range order {
 		var fs []aff
 		if d := b.Idom(); d != nil {
@@ -888,16 +893,27 @@ func (bf *boundsFn) computeFacts() {
 				fs = append(append([]aff(nil), fs...), bf.condFacts(ifi.Cond, p.Succs[0] == b, 0)...)
 			}
 		}
+		if d := b.Idom(); d != nil && len(b.Preds) != 1 {
+			// the dominator's branch decides: if b cannot be reached from one
+			// successor of d without passing d again, the last execution of d
+			// took the other edge
+			if ifi, ok := d.Instrs[len(d.Instrs)-1].(*ssa.If); ok && d.Succs[0] != d.Succs[1] {
+				r0, r1 := reachesAvoiding(d.Succs[0], b, d), reachesAvoiding(d.Succs[1], b, d)
+				if r0 != r1 {
+					fs = append(append([]aff(nil), fs...), bf.condFacts(ifi.Cond, r0, 0)...)
+				}
+			}
+		}
 		bf.facts[b] = fs
 		// buffer typestate: join of predecessors (all must be known and equal)
 		in := bufState{}
+		loopHead := false
 		if len(b.Preds) > 0 {
 			first := true
 			for _, p := range b.Preds {
 				if !done[p] {
-					in = bufState{} // back edge: nothing is known at a loop head
-					first = false
-					break
+					loopHead = true
+					continue
 				}
 				if first {
 					in = exit[p].clone()
@@ -916,9 +932,241 @@ func (bf *boundsFn) computeFacts() {
 				}
 			}
 		}
+		if loopHead {
+			if h, ok := fixed[b]; ok {
+				in = h
+			} else {
+				// a loop head: the count survives only as a verified
+				// hypothesis "entry count + m·(counter − its entry value)"
+				in = bf.loopBufState(b, in, order, exit, done, depth)
+			}
+		}
 		exit[b] = bf.bufTransfer(b, in)
 		done[b] = true
 	}
+}
+
+// loopBufState tries, for every buffer whose count is known on entry to the
+// loop headed by h, the hypothesis that the count moves in lockstep with an
+// integer loop counter, and keeps those that one abstract pass over the loop
+// body confirms on every back edge.
+func (bf *boundsFn) loopBufState(h *ssa.BasicBlock, entry bufState, order []*ssa.BasicBlock, exit map[*ssa.BasicBlock]bufState, done map[*ssa.BasicBlock]bool, depth int) bufState {
+	out := bufState{}
+	if depth > 2 {
+		return out
+	}
+	// natural loop of h
+	body := map[*ssa.BasicBlock]bool{h: true}
+	var latches []*ssa.BasicBlock
+	for _, p := range h.Preds {
+		if !done[p] && h.Dominates(p) {
+			latches = append(latches, p)
+			stack := []*ssa.BasicBlock{p}
+			for len(stack) > 0 {
+				n := stack[len(stack)-1]
+				stack = stack[:len(stack)-1]
+				if body[n] {
+					continue
+				}
+				body[n] = true
+				stack = append(stack, n.Preds...)
+			}
+		}
+	}
+	if len(latches) == 0 {
+		return out
+	}
+	var sub []*ssa.BasicBlock
+	for _, b := range order {
+		if body[b] {
+			sub = append(sub, b)
+		}
+	}
+	// per-iteration consumption candidates
+	cands := map[int64]bool{1: true}
+	var total int64
+	for b := range body {
+		for _, ins := range b.Instrs {
+			if ci, ok := ins.(ssa.CallInstruction); ok {
+				if _, m, ok := bufRecv(ci); ok && m == "Next" {
+					if c, ok := ci.Common().Args[1].(*ssa.Const); ok {
+						if k, ok := constInt64(c); ok && k > 0 && k < 1<<16 {
+							cands[k] = true
+							total += k
+						}
+					}
+				}
+			}
+		}
+	}
+	if total > 0 {
+		cands[total] = true
+	}
+	var ks []int64
+	for k := range cands {
+		ks = append(ks, k)
+	}
+	sort.Slice(ks, func(i, j int) bool { return ks[i] < ks[j] })
+	type hyp struct {
+		phi *ssa.Phi
+		m   int64
+	}
+	for key, r0 := range entry {
+		if r0 == nil {
+			continue
+		}
+		var found *aff
+		for _, ins := range h.Instrs {
+			phi, ok := ins.(*ssa.Phi)
+			if !ok {
+				break
+			}
+			if !isIntType(phi.Type()) || found != nil {
+				continue
+			}
+			// entry value of the counter
+			var c0 *aff
+			okPhi := true
+			for i, p := range h.Preds {
+				if done[p] {
+					a := bf.affOf(phi.Edges[i])
+					if c0 != nil && !sameAff(c0, &a) {
+						okPhi = false
+					}
+					c0 = &a
+				}
+			}
+			if !okPhi || c0 == nil {
+				continue
+			}
+			for _, k := range ks {
+				for _, m := range []int64{k, -k} {
+					if found != nil {
+						break
+					}
+					H := r0.add(affAtom(ssa.Value(phi)), m).add(*c0, -m)
+					snap := bf.snapshot()
+					ex2 := map[*ssa.BasicBlock]bufState{}
+					dn2 := map[*ssa.BasicBlock]bool{}
+					for b, v := range exit {
+						ex2[b] = v
+					}
+					for b, v := range done {
+						dn2[b] = v
+					}
+					bf.runBlocks(sub, ex2, dn2, map[*ssa.BasicBlock]bufState{h: {key: &H}}, depth+1)
+					good := true
+					for _, l := range latches {
+						got := ex2[l][key]
+						idx := -1
+						for i, p := range h.Preds {
+							if p == l {
+								idx = i
+							}
+						}
+						if got == nil || idx < 0 {
+							good = false
+							break
+						}
+						next := bf.affOf(phi.Edges[idx])
+						want := H.add(next, m).add(affAtom(ssa.Value(phi)), -m)
+						if !sameAff(got, &want) {
+							good = false
+							break
+						}
+					}
+					if os.Getenv("BUFDEBUG") != "" {
+						var l0 *aff
+						if len(latches) > 0 {
+							l0 = ex2[latches[0]][key]
+						}
+						ls := "<nil>"
+						if l0 != nil {
+							ls = bf.affString(*l0)
+						}
+						fmt.Fprintf(os.Stderr, "BUF %s head %d key %s phi %s m=%d H=%s latch=%s good=%v\n", bf.fn.Name(), h.Index, key, sx(phi), m, bf.affString(H), ls, good)
+					}
+					bf.restore(snap)
+					if good {
+						found = &H
+					}
+				}
+			}
+		}
+		out[key] = found
+	}
+	return out
+}
+
+// reachesAvoiding: to is reachable from from (possibly equal) on a path that
+// does not pass through avoid.
+func reachesAvoiding(from, to, avoid *ssa.BasicBlock) bool {
+	seen := map[*ssa.BasicBlock]bool{avoid: true}
+	stack := []*ssa.BasicBlock{from}
+	for len(stack) > 0 {
+		n := stack[len(stack)-1]
+		stack = stack[:len(stack)-1]
+		if seen[n] {
+			continue
+		}
+		seen[n] = true
+		if n == to {
+			return true
+		}
+		stack = append(stack, n.Succs...)
+	}
+	return false
+}
+
+type bfSnap struct {
+	affMemo, lenMemo, valOverride, lenOverride map[ssa.Value]*aff
+	rngMemo                                    map[interface{}]*ival
+	facts                                      map[*ssa.BasicBlock][]aff
+	canonMemo                                  map[ssa.Value]ssa.Value
+	phiDone                                    map[*ssa.Phi]bool
+	passed                                     map[*ssa.BasicBlock][]passedCheck
+	global                                     []aff
+}
+
+func copyAffMap(m map[ssa.Value]*aff) map[ssa.Value]*aff {
+	n := make(map[ssa.Value]*aff, len(m))
+	for k, v := range m {
+		n[k] = v
+	}
+	return n
+}
+
+func (bf *boundsFn) snapshot() *bfSnap {
+	s := &bfSnap{affMemo: copyAffMap(bf.affMemo), lenMemo: copyAffMap(bf.lenMemo), valOverride: copyAffMap(bf.valOverride), lenOverride: copyAffMap(bf.lenOverride),
+		rngMemo: map[interface{}]*ival{}, facts: map[*ssa.BasicBlock][]aff{}, canonMemo: map[ssa.Value]ssa.Value{}, global: append([]aff(nil), bf.global...)}
+	for k, v := range bf.rngMemo {
+		s.rngMemo[k] = v
+	}
+	for k, v := range bf.facts {
+		s.facts[k] = v
+	}
+	for k, v := range bf.canonMemo {
+		s.canonMemo[k] = v
+	}
+	if bf.phiDone != nil {
+		s.phiDone = map[*ssa.Phi]bool{}
+		for k, v := range bf.phiDone {
+			s.phiDone[k] = v
+		}
+	}
+	if bf.passed != nil {
+		s.passed = map[*ssa.BasicBlock][]passedCheck{}
+		for k, v := range bf.passed {
+			s.passed[k] = v
+		}
+	}
+	return s
+}
+
+func (bf *boundsFn) restore(s *bfSnap) {
+	bf.affMemo, bf.lenMemo, bf.valOverride, bf.lenOverride = s.affMemo, s.lenMemo, s.valOverride, s.lenOverride
+	bf.rngMemo, bf.facts, bf.canonMemo, bf.global = s.rngMemo, s.facts, s.canonMemo, s.global
+	bf.phiDone, bf.passed = s.phiDone, s.passed
 }
 
 // prove tries to show e ≥ 0 in block b.
